@@ -432,7 +432,7 @@ Definition oracle_spec_langid (op : bytes) (args : list bytes) (impl : bytes) : 
   else None.
 
 (* ================================================================== locales / extensions *)
-From UL Require Import Ext LocaleOrd Ops AbstractLocale LocaleSpec CanonLocale.
+From UL Require Import Ext LocaleOrd Ops AbstractLocale LocaleSpec CanonLocale Prefix.
 
 Definition semi : bytes := [59].
 Definition fmt_kmap (m : kmap) : bytes :=
@@ -574,6 +574,14 @@ Definition oracle_model_locale (op : bytes) (args : list bytes) : option bytes :
                                then bs "LI-OK LOC-SAME" else bs "LI-OK LOC-DIFF"
                      | _ => bs "LI-OK LOC-ERR" end)
           | _ => bs "LI-ERR" end)
+  else if beqb op (bs "loc_prefix") then
+    (* C13: the id versus LanguageIdentifier on the part before the first singleton subtag *)
+    Some (match locale_from_bytes a with
+          | Ok l => (match langid_from_bytes (join (before_single (split a))) with
+                     | Ok v => if li_eqb v (loc_id l) && beqb (li_to_string v) (li_to_string (loc_id l))
+                               then bs "PRE-SAME" else bs "PRE-DIFF"
+                     | _ => bs "PRE-ERR" end)
+          | _ => bs "LOC-ERR" end)
   else if beqb op (bs "loc_conv") then
     Some (match locale_from_bytes a with
           | Ok l => (* Locale -> LanguageIdentifier drops exactly the extensions; back gives empty extensions *)
@@ -665,6 +673,12 @@ Definition oracle_spec_locale (op : bytes) (args : list bytes) (impl : bytes) : 
     Some (match spec_langid (split a) with
           | Some _ => beqb impl (bs "LI-OK LOC-SAME")
           | None => beqb impl (bs "LI-ERR") end)
+  else if beqb op (bs "loc_prefix") then
+    (* every well-formed locale string (MustAccept = the EBNF, C03_must_accept_is_the_grammar): the id is what
+       LanguageIdentifier parses from the part before the first singleton (C13_before_first_singleton) *)
+    Some (match spec_locale_zone (split a) with
+          | MustAccept _ => beqb impl (bs "PRE-SAME")
+          | _ => true end)
   else if beqb op (bs "loc_into_parts") then Some (beqb impl (bs "OK same") || beqb impl (bs "BADARG"))
   else if beqb op (bs "loc_matches") then
     Some (match spec_locale_zone (split (arg_n 0 args)), spec_locale_zone (split (arg_n 1 args)) with
